@@ -12,7 +12,7 @@ EXPLANATION = ('The solver\'s design makes the property structural: a candidate 
                'arguments; (R01.4) every angle slot passes is_finite on the true edge before the push, the 5-DOF J6 slot receives no NaN '
                'constant; (R01.5) after the gate solution elements are written only by the 2*pi near-normaliser; (R01.6) plain inverse stores '
                'each angle after the two reduction loops (exit edges !(x > PI), !(x < -PI), updates -/+ 2*PI); (R01.7) panic-site census of '
-               'the four entry points; the clauses of C03 (forward() is the OPW chain, one joint convention) are re-checked because the gate is only as good as forward().  Whether a closed-form candidate is accurate enough to pass the gate is numerical and not decided.')
+               'the four entry points; the clauses of C03 (forward() is the OPW chain, one joint convention) are re-checked because the gate is only as good as forward().  The position gate of the 5-DOF path must hold positively (`distance <= tolerance` evaluated true, so that a NaN distance fails: the J6 of a 5-DOF candidate passes no finiteness test).  Where the tail of an internal solver is not in the shape these rules read, R01.1 / R01.4 / R01.6 are decided by symbolic interpretation of the solver over scripted scenarios (sa/solvertail.py).  Whether a closed-form candidate is accurate enough to pass the gate is numerical and not decided.')
 NOT_DECIDED = 'that closed-form candidates pass the gate (C02); IEEE behaviour inside nalgebra; poses with infinite components'
 ASSUMPTIONS = ['nalgebra norm()/angle_to() compute the Euclidean norm / rotation angle', 'forward() is the FK model of C03']
 
